@@ -12,10 +12,11 @@ GRAMMARS = [
     'start: "a"\nx: "b"\n//',
     'start: "a"\nx: "b"\n//startx',
     'start: (A | B)+\nA.2: /a/\nB: /a+/\n%ignore " "\n',
+    'start: (KW | NAME)+\nKW: "ab"i\nNAME: /[a-z]+/s\n%ignore " "\n',       # keyword carve-out decided by the terminals\' flags (a frozenset; a list after a careless restore)
 ]
 OPTS = [{}, {'maybe_placeholders': False}, {'keep_all_tokens': True}, {'lexer': 'basic'}, {'propagate_positions': True}, {'start': 'x'}, {'g_regex_flags': 2}, {'_dir': 'B'}, {'_dir': 'B', 'maybe_placeholders': False}, {'priority': None}, {'priority': 'invert'}, {'priority': 'normal'}, {'_pkg': True}, {'_pkg': True, 'keep_all_tokens': True}]
 IMPORTS = ['item: "a"\n', 'item: "a" | "b" "a"\n', 'item: "b"+\n']
-PROBES = ['', 'a', 'b', 'ab', 'aab', 'a a b', 'ba', 'bb a', 'aaa', 'A']
+PROBES = ['', 'a', 'b', 'ab', 'aab', 'a a b', 'ba', 'bb a', 'aaa', 'A', 'AB', 'Ab ab']
 
 
 def signature(p):
